@@ -37,6 +37,9 @@ type Cfg struct {
 	// Storm: the sessions do nothing but announce election ids, all of them at the same moment in every round
 	// (distinct ids, increasing from round to round), so that their compare-and-set sections contend
 	Storm bool
+	// Burst: every session ends with a burst of operation messages that it does not wait for, drains slowly and
+	// half-closes at once: the RPC ends OK, so every operation of the burst must have been answered
+	Burst bool
 	// CutSession > 0: the transport of that session (1-based) fails in the middle of a batch half-way through the run
 	CutSession int
 }
@@ -334,12 +337,57 @@ func Run(sink ribdrv.Sink, c Cfg) (hangs int, err error) {
 					}
 				}
 			}
+			burst := []abs.Op{}
+			if c.Burst && last != [2]int{} {
+				ms.SlowSends(150 * time.Microsecond)
+				for b := 0; b < 4; b++ {
+					req := &spb.ModifyRequest{}
+					for j := 0; j < 3; j++ {
+						opid++
+						o := abs.Op{ID: opid, NI: "DEFAULT", Typ: "ADD", Kind: "nh", Key: fmt.Sprint(10*(i+1) + (b*3+j)%4), PL: abs.NHPayloads[j], NHs: []string{}, EID: last}
+						if p, err := abs.Concretise(o); err == nil {
+							burst = append(burst, o)
+							req.Operation = append(req.Operation, p)
+						}
+					}
+					if !send(req, "burst") {
+						return
+					}
+				}
+			}
 			ms.Close(io.EOF)
+			var rpcErr error
 			select {
-			case <-done:
+			case rpcErr = <-done:
 			case <-abort:
+				return
 			case <-time.After(10 * time.Second):
 				note(l + ": Modify did not return after half-close")
+				return
+			}
+			if len(burst) > 0 && rpcErr == nil {
+				// the RPC ended OK: every result was handed to the writer before Modify returned; its last Send may still
+				// be in progress
+				want += len(burst)
+				dl := time.Now().Add(10 * time.Second)
+				for ms.NSent() < want && time.Now().Before(dl) {
+					time.Sleep(100 * time.Microsecond)
+				}
+				got := map[uint64]spb.AFTResult_Status{}
+				for _, resp := range ms.Take(want - len(burst)) {
+					for _, x := range resp.GetResult() {
+						got[x.GetId()] = x.GetStatus()
+					}
+				}
+				for _, o := range burst {
+					st, ok := got[o.ID]
+					switch {
+					case !ok:
+						note(fmt.Sprintf("%s: operation %d of the final burst was never answered although the RPC ended OK", l, o.ID))
+					case st == spb.AFTResult_RIB_PROGRAMMED:
+						acked[i] = append(acked[i], o)
+					}
+				}
 			}
 		}(i)
 	}
